@@ -5,6 +5,7 @@ import (
 	"errors"
 	"fmt"
 	"hash/fnv"
+	"io"
 	"reflect"
 	"testing"
 	"unsafe"
@@ -96,12 +97,26 @@ func (fc fileCase) build() (*builtFile, error) {
 // failAt >= 0 makes the callback return errSentinel at that record index.
 var errSentinel = errors.New("callback sentinel error")
 
+// callbackErrors are the values a callback may return to stop the read: an
+// ordinary error and errors the reader also uses internally (a caller reading
+// from its own stream inside the callback will return exactly these).
+var callbackErrors = []error{
+	errSentinel,
+	io.EOF,
+	io.ErrUnexpectedEOF,
+	fmt.Errorf("caller: %w", io.EOF),
+}
+
 func readAbs(file []byte, ts spec.TypeSpec, typ reflect.Type, failAt *int) ([]spec.AbsVal, error) {
+	return readAbsErr(file, ts, typ, failAt, errSentinel)
+}
+
+func readAbsErr(file []byte, ts spec.TypeSpec, typ reflect.Type, failAt *int, cbErr error) ([]spec.AbsVal, error) {
 	var got []spec.AbsVal
 	err := avro.ReadFile(bytes.NewReader(file), reflect.New(typ).Elem().Interface(), func(val unsafe.Pointer, rb *avro.ResourceBank) error {
 		got = append(got, spec.Abs(ts, false, reflect.NewAt(typ, val).Elem()))
 		if failAt != nil && len(got)-1 == *failAt {
-			return errSentinel
+			return cbErr
 		}
 		return nil
 	})
@@ -303,6 +318,131 @@ func enumCheck(t *testing.T, col *stats.Collector, entry string, run func(fileCa
 	col.LabelN("files", int64(files))
 }
 
+// TestC08Large: a block whose payload exceeds 1 MiB (beyond any internal
+// chunking of reads), cut at every structural boundary and at sampled
+// positions inside each payload.
+type c08LargeCase struct {
+	Codec   string `json:"codec"`
+	Cut     int    `json:"cut"`
+	FileLen int    `json:"file_len"`
+}
+
+func init() {
+	registerReplay("c08-large", func(c c08LargeCase) error { return c08Large(nil, c.Codec, c.Cut) })
+}
+
+func TestC08Large(t *testing.T) {
+	col := stats.New("C08")
+	col.Rule = c08Rule
+	defer col.Flush()
+	if err := c08Large(col, "", -1); err != nil {
+		var lc c08LargeCase
+		if le, ok := err.(*c08LargeErr); ok {
+			lc = le.c
+		}
+		failCase(t, "C08", "c08-large", lc, err)
+	}
+	col.Label("large_block_files")
+}
+
+type c08LargeErr struct {
+	c   c08LargeCase
+	msg string
+}
+
+func (e *c08LargeErr) Error() string { return e.msg }
+
+func c08Large(col *stats.Collector, onlyCodec string, onlyCut int) error {
+	schema := ref.Schema{Kind: "record", Name: "Big", Fields: []ref.Field{{Name: "id", Type: ref.Prim("long")}, {Name: "s", Type: ref.Prim("string")}}}
+	target := spec.Struct(spec.FieldSpec{Go: "ID", JSON: "id", T: spec.T("int64")}, spec.FieldSpec{Go: "S", JSON: "s", T: spec.T("string")})
+	typ := spec.Build(target)
+	for ci, codec := range []string{"null", "deflate", "snappy"} {
+		if onlyCodec != "" && codec != onlyCodec {
+			continue
+		}
+		var blocks []ref.Block
+		id := int64(0)
+		mk := func(n, strLen int) ref.Block {
+			var payload []byte
+			for i := 0; i < n; i++ {
+				str := make([]byte, strLen)
+				for j := range str {
+					str[j] = byte('a' + (int(id)*7+j*13+j/251)%26)
+				}
+				payload, _ = (&ref.Encoder{}).Encode(payload, schema, ref.Datum{K: "record", Fields: []ref.Datum{ref.Long(id), {K: "string", S: str}}})
+				id++
+			}
+			return ref.Block{Count: int64(n), Payload: payload}
+		}
+		blocks = append(blocks, mk(5, 20), mk(12000, 105+int(seedVal()%7)), mk(5, 20))
+		fs := ref.FileSpec{Schema: []byte(ref.Render(schema, nil)), Codec: codec, Blocks: blocks}
+		for i := range fs.Sync {
+			fs.Sync[i] = byte(i*17 + ci)
+		}
+		file, lay, err := ref.WriteFile(fs)
+		if err != nil {
+			return fmt.Errorf("VERIF-INCONCLUSIVE %v", err)
+		}
+		var cuts []int
+		for _, bl := range lay.Blocks {
+			cuts = append(cuts, bl.Start, bl.CountEnd, bl.SizeEnd, bl.PayloadEnd, bl.PayloadEnd+7, bl.End)
+			n := bl.PayloadEnd - bl.SizeEnd
+			for k := 1; k <= 15; k++ {
+				cuts = append(cuts, bl.SizeEnd+n*k/16+int(seedVal())%5)
+			}
+			if n > 1<<20 {
+				cuts = append(cuts, bl.SizeEnd+1<<20, bl.SizeEnd+1<<20+1, bl.SizeEnd+1<<20-1)
+			}
+		}
+		perBlk := []int{5, 12000, 5}
+		for _, cut := range cuts {
+			if cut < 0 || cut > len(file) || (onlyCut >= 0 && cut != onlyCut) {
+				continue
+			}
+			want := 0
+			okCut := cut == lay.HeaderEnd
+			for i, bl := range lay.Blocks {
+				if cut >= bl.PayloadEnd {
+					want += perBlk[i]
+				}
+				if cut == bl.End {
+					okCut = true
+				}
+			}
+			n := 0
+			var bad error
+			rerr := avro.ReadFile(bytes.NewReader(file[:cut]), reflect.New(typ).Elem().Interface(), func(val unsafe.Pointer, rb *avro.ResourceBank) error {
+				v := reflect.NewAt(typ, val).Elem()
+				if v.Field(0).Int() != int64(n) && bad == nil {
+					bad = fmt.Errorf("record %d delivered with id %d", n, v.Field(0).Int())
+				}
+				n++
+				rb.Close()
+				return nil
+			})
+			var ferr error
+			switch {
+			case bad != nil:
+				ferr = bad
+			case n != want:
+				ferr = fmt.Errorf("%d records delivered, %d belong to blocks whose payload is complete", n, want)
+			case okCut && rerr != nil:
+				ferr = fmt.Errorf("cut at a block boundary but ReadFile failed: %v", rerr)
+			case !okCut && rerr == nil:
+				ferr = fmt.Errorf("ReadFile reported success for a file cut in mid-block")
+			}
+			if col != nil {
+				col.RecordKey(fileKey(file[:64], cut, byte('L'+ci)), true)
+			}
+			if ferr != nil {
+				return &c08LargeErr{c08LargeCase{codec, cut, len(file)},
+					fmt.Sprintf("large-block file (%s, blocks of 5/12000/5 records, %d bytes) cut at %d: %v", codec, len(file), cut, ferr)}
+			}
+		}
+	}
+	return nil
+}
+
 func TestC08(t *testing.T) {
 	col := stats.New("C08")
 	col.Rule = c08Rule
@@ -314,12 +454,26 @@ func TestC08(t *testing.T) {
 
 const c07Rule = "rapid draws of valid files (as C08) and, for each file, enumeration of: every bit of every block-trailing sync marker and of the header's marker, every bit of every snappy CRC, " +
 	"every bit of every compressed payload (at most 4096 sites per file, strided beyond), every bit of the magic, header rewrites (schema removed, codec removed, codec replaced by unknown names), " +
-	"every record index as the point where the callback fails; oracle: intact file -> the reference decode, nil error; sync / CRC / magic damage, missing schema, unknown codec -> non-nil error and only intact records before it; " +
+	"a block count raised by one, every record index as the point where the callback fails (returning an ordinary error, io.EOF, io.ErrUnexpectedEOF or an error wrapping io.EOF); oracle: intact file -> the reference decode, nil error; sync / CRC / magic damage, missing schema, unknown codec -> non-nil error and only intact records before it; " +
 	"payload damage -> error exactly when the reference decompressor (compress/flate, snappy + CRC) rejects the damaged payload; no avro.codec -> same records as the null codec; " +
 	"callback error at k -> exactly k+1 callbacks and the identical error value; evaluations = sites; non-trivial = site in a block other than the first of a multi-block file, or callback failure at k > 0; distinct by (file hash, site)"
 
 func init() {
 	registerReplay("c07", func(c fileCase) error { _, _, err := runC07(c, nil); return err })
+}
+
+// minWidthOfFile: least encoded size of one record of the file's schema (0 for
+// zero-width records, for which a larger declared count is not detectable).
+func minWidthOfFile(c fileCase) int {
+	if c.Wire != nil {
+		return minWidth(c.Wire.Schema)
+	}
+	if c.Enc != nil {
+		if s, err := spec.ModelSchema(c.Enc.Type, nil); err == nil {
+			return minWidth(s)
+		}
+	}
+	return 0
 }
 
 func flipBit(file []byte, byteOff int, bit uint) []byte {
@@ -417,6 +571,18 @@ func runC07(c fileCase, col *stats.Collector) (bool, []string, error) {
 			for bit := uint(0); bit < 8; bit += 3 {
 				try("header_sync", 0, false, flipBit(b.file, i, bit), mustFail(recordsBefore(1)))
 			}
+		}
+	}
+	// 2b. a block that declares one record more than its payload holds (the
+	// reader must not deliver "exactly the declared records" silently short)
+	if minWidthOfFile(c) > 0 {
+		for bi, bl := range b.lay.Blocks {
+			if bl.Count < 1 || bl.Count >= 63 {
+				continue // keep the count varint one byte long so that nothing else moves
+			}
+			damaged := append([]byte(nil), b.file...)
+			damaged[bl.Start] = ref.AppendLong(nil, bl.Count+1)[0]
+			try("block_count_plus_one", bi, multi && bi > 0, damaged, mustFail(recordsBefore(bi+1)))
 		}
 	}
 	// 3. snappy CRC: every bit
@@ -537,12 +703,13 @@ func runC07(c fileCase, col *stats.Collector) (bool, []string, error) {
 		kk := k
 		var got []spec.AbsVal
 		var rerr error
-		if perr := protect(func() error { got, rerr = readAbs(b.file, b.ts, b.typ, &kk); return nil }); perr != nil {
+		cbErr := callbackErrors[(k+len(b.file))%len(callbackErrors)]
+		if perr := protect(func() error { got, rerr = readAbsErr(b.file, b.ts, b.typ, &kk, cbErr); return nil }); perr != nil {
 			failure = fmt.Errorf("site %d (callback error at record %d): %v", my, k, perr)
 		} else if len(got) != k+1 {
 			failure = fmt.Errorf("site %d: callback failed at record %d but %d callbacks were made", my, k, len(got))
-		} else if rerr != errSentinel {
-			failure = fmt.Errorf("site %d: callback error at record %d came back as %v (not the identical error value)", my, k, rerr)
+		} else if rerr != cbErr {
+			failure = fmt.Errorf("site %d: callback returned %q (%T) at record %d, ReadFile returned %v (not the identical error value)", my, cbErr, cbErr, k, rerr)
 		}
 		if col != nil {
 			col.RecordKey(fileKey(b.file, my, 's'), k > 0)
